@@ -153,7 +153,7 @@ OpStats disk_end_op(std::vector<WriteRec> *trace) {
     g_tot.seeks += st.seeks; g_tot.bytes_written += st.bytes_accepted; g_tot.bytes_read += st.bytes_read;
     g_tot.f_open_fail += st.f_open_fail; g_tot.f_budget += st.f_budget; g_tot.f_eio += st.f_eio;
     g_tot.f_short_write += st.f_short_write; g_tot.f_eintr_w += st.f_eintr_w; g_tot.f_eintr_r += st.f_eintr_r;
-    g_tot.f_short_read += st.f_short_read;
+    g_tot.f_short_read += st.f_short_read; g_tot.f_seek += st.f_seek;
     return st;
 }
 bool disk_take_undefined_write(uint64_t *off) {
@@ -287,6 +287,13 @@ off64_t sim_lseek(int fd, off64_t off, int whence) {
     auto it = g_open.find(fd);
     if (it == g_open.end()) { errno = EBADF; return -1; }
     OpenFile &of = it->second;
+    if (t_op.active && of.writable) {
+        t_op.st.seek_calls_w++;
+        int64_t k = t_op.spec.fail_seek_call;
+        if (k == 0 || (k > 0 && static_cast<int64_t>(t_op.st.seek_calls_w) == k)) {
+            t_op.st.f_seek++; t_op.st.hard_fired = true; errno = ESPIPE; return -1;
+        }
+    }
     int64_t base = 0;
     if (whence == SEEK_SET) base = 0;
     else if (whence == SEEK_CUR) base = static_cast<int64_t>(of.pos);
